@@ -241,6 +241,37 @@ def cmd_check(args, vx):
                                        "spans": [], "rendered": (kr.get("detail") or "")[-3000:], "tags": [prop], "site": "",
                                        "trie_input": kr.get("counterexample") or "(see verifier_output: the failed check names the violated oracle clause)", "sample": "kani"})
 
+    # bounded differential replay (/verif/xcheck): the real crate, compiled with interface T2 through the real macro,
+    # against the executable transcription of the spec. Labelled bounded; never counted as proved. It supplies the
+    # failing input for a violation and stands in where no contract reaches (macro code generation beyond the sampled
+    # interfaces; a function restructured so that its contract can no longer be woven).
+    xcheck_results = []
+    if pc.get("xcheck_families") and os.environ.get("VX_NO_XCHECK") != "1":
+        from . import xcheck as xc
+        try:
+            xbin = xc.build(vx)
+            for fam in pc["xcheck_families"]:
+                xr = xc.run_family(xbin, fam, tier, seed)
+                xcheck_results.append(xr)
+                if xr["status"] != "ok":
+                    tool_problems.append(f"bounded replay family {fam}: {xr['status']} {xr.get('detail', '')[:300]}")
+                seen_kinds = set()
+                for m in xr["reported"]:
+                    if m["kind"] in seen_kinds:
+                        continue
+                    seen_kinds.add(m["kind"])
+                    violations.append({"obligation": f"xcheck:{fam}:{m['kind']}:{m['scenario'].get('input', '')[:80]}", "item": f"bounded replay family {fam} (interface T2, real macro, real crate)",
+                                       "message": f"the real code deviates from the specification on a concrete input ({m['kind']}): {m['detail']}",
+                                       "spans": [], "rendered": json.dumps(m, indent=1), "tags": [prop], "site": "", "xcheck": m})
+        except ToolError as e:
+            tool_problems.append(str(e))
+        # a violation reported by the verifier carries no input: attach the one the bounded replay found
+        first_x = next((v["xcheck"] for v in violations if v.get("xcheck")), None)
+        if first_x:
+            for v in violations:
+                if not v.get("xcheck") and not v.get("trie_input"):
+                    v["xcheck_found"] = first_x
+
     rc = 0
     os.makedirs(os.path.join(vx.BUILD, "replay"), exist_ok=True)
     out_lines = []
@@ -256,9 +287,18 @@ def cmd_check(args, vx):
         if info.get("trie_input"):
             replay["failing_input"] = {"kind": "header", "sample": info["sample"], "run_input": info["trie_input"], "expected": info["message"]}
             tail = ""
+        xm = info.get("xcheck") or info.get("xcheck_found")
+        if xm:
+            replay["failing_input"] = {"kind": "xcheck", "family": xm["family"], "aspect": xm["kind"], "scenario": xm["scenario"], "observed_vs_expected": xm["detail"], "expected": xm["expected"],
+                                       "how": "./vx replay <this file> rebuilds /verif/xcheck against the working tree and runs the scenario on the real crate"}
+            if info.get("xcheck_found"):
+                replay["note"] += "; the failing input was found by the bounded differential replay for this property (it shows that the property is violated, not necessarily through this obligation)"
+            else:
+                replay["note"] = "concrete input on which the real code deviates from the specification (bounded differential replay)"
+            tail = ""
         try:
             from . import replay as rpl
-            found = None if info.get("trie_input") else rpl.search(vx, prop, info, seed)
+            found = None if (info.get("trie_input") or xm) else rpl.search(vx, prop, info, seed)
             if found:
                 replay["failing_input"] = found
                 tail = ""
@@ -287,6 +327,7 @@ def cmd_check(args, vx):
             "canaries": {"woven": canaries_total, "failed_as_required": canaries_failed},
             "macro_output_validation": trie_summaries,
             "recorded_inputs_replayed_on_real_code": replayed,
+            "bounded_differential_replay": [{k: x.get(k) for k in ("family", "status", "scenarios", "mismatches", "kinds", "bound", "seconds")} for x in xcheck_results],
             "kani_bounded_harnesses": [{k: kr.get(k) for k in ("harness", "status", "seconds", "bound", "complete")} for kr in kani_results],
             "rewrite_log": rewrites,
             "assumption_scan": {k: v for k, v in assumptions_scan.items() if v},
@@ -317,6 +358,10 @@ def cmd_replay(args, vx):
     d = json.load(open(args.file))
     print(json.dumps({k: d[k] for k in ("property", "obligation", "message")}, indent=1))
     print(d.get("verifier_output", ""))
+    if d.get("failing_input", {}).get("kind") == "xcheck":
+        from . import xcheck as xc
+        vx.GEN = os.path.join(vx.BUILD, "gen-replay")
+        return xc.rerun(vx, d["failing_input"])
     if d.get("failing_input"):
         from . import replay as rpl
         return rpl.rerun(vx, d)
